@@ -178,7 +178,7 @@ static vf::Verdicts eval(const Spec &s, vf::Ctx &ctx, bool th) {
 
 int main(int argc, char **argv) {
   vf::Opts o = vf::parseOpts(argc, argv);
-  bool th = o.thorough();
+  bool th = o.thorough() && o.pass != "san";  // the secondary sanitizer pass of the thorough tier uses the quick alphabet
   vf::Check<Spec> c;
   c.property = "C09";
   c.level = "model_checking";
